@@ -286,7 +286,16 @@ End NAssoc.
 Definition nmem (k : N) (l : list N) : bool := existsb (N.eqb k) l.
 
 (* ------------------------------------------------------------------ core state *)
-Record bentry := { b_contents : json; b_hash : json }.
+(* b_meta: the (size, mtime_ns) of the file when the entry was created, abstracted to a version number *)
+Record bentry := { b_contents : json; b_hash : json; b_meta : option N }.
+
+(* what the buffer's integrity checks look at *)
+Record disk := {
+  vers : list (N * N);                 (* file id |-> version of the file on disk (stands for its size+mtime) *)
+  clock : N;                           (* next version number                                             *)
+  nowrite : list N;                    (* files whose directory does not exist (a write raises ENOENT)    *)
+  ferr : bool                          (* the last _flush_buffer collected issues (raises BufferedError)   *)
+}.
 
 Record cstate := {
   files : list (N * json);             (* file id  |-> parsed contents of the JSON file            *)
@@ -295,20 +304,39 @@ Record cstate := {
   reg   : list N;                      (* _buffered_collections, oldest first                       *)
   cap   : N;                           (* _BUFFER_CAPACITY                                          *)
   caps  : list (option N);             (* capacities to restore on exit                             *)
-  depth : nat                          (* entry count of the backend's buffer context               *)
+  depth : nat;                         (* entry count of the backend's buffer context               *)
+  dk : disk
 }.
 
 Definition empty_obj := JObj [].
 Definition fcontent (st : cstate) (f : N) : json :=
   match nlookup f (files st) with Some v => v | None => empty_obj end.
 
-Definition with_files st x := {| files := x; mems := mems st; buf := buf st; reg := reg st; cap := cap st; caps := caps st; depth := depth st |}.
-Definition with_mems st x := {| files := files st; mems := x; buf := buf st; reg := reg st; cap := cap st; caps := caps st; depth := depth st |}.
-Definition with_buf st x := {| files := files st; mems := mems st; buf := x; reg := reg st; cap := cap st; caps := caps st; depth := depth st |}.
-Definition with_reg st x := {| files := files st; mems := mems st; buf := buf st; reg := x; cap := cap st; caps := caps st; depth := depth st |}.
-Definition with_cap st x := {| files := files st; mems := mems st; buf := buf st; reg := reg st; cap := x; caps := caps st; depth := depth st |}.
-Definition with_caps st x := {| files := files st; mems := mems st; buf := buf st; reg := reg st; cap := cap st; caps := x; depth := depth st |}.
-Definition with_depth st x := {| files := files st; mems := mems st; buf := buf st; reg := reg st; cap := cap st; caps := caps st; depth := x |}.
+Definition with_files st x := {| files := x; mems := mems st; buf := buf st; reg := reg st; cap := cap st; caps := caps st; depth := depth st; dk := dk st |}.
+Definition with_mems st x := {| files := files st; mems := x; buf := buf st; reg := reg st; cap := cap st; caps := caps st; depth := depth st; dk := dk st |}.
+Definition with_buf st x := {| files := files st; mems := mems st; buf := x; reg := reg st; cap := cap st; caps := caps st; depth := depth st; dk := dk st |}.
+Definition with_reg st x := {| files := files st; mems := mems st; buf := buf st; reg := x; cap := cap st; caps := caps st; depth := depth st; dk := dk st |}.
+Definition with_cap st x := {| files := files st; mems := mems st; buf := buf st; reg := reg st; cap := x; caps := caps st; depth := depth st; dk := dk st |}.
+Definition with_caps st x := {| files := files st; mems := mems st; buf := buf st; reg := reg st; cap := cap st; caps := x; depth := depth st; dk := dk st |}.
+Definition with_depth st x := {| files := files st; mems := mems st; buf := buf st; reg := reg st; cap := cap st; caps := caps st; depth := x; dk := dk st |}.
+
+Definition with_dk st x := {| files := files st; mems := mems st; buf := buf st; reg := reg st; cap := cap st; caps := caps st; depth := depth st; dk := x |}.
+Definition with_ferr st (b : bool) :=
+  with_dk st {| vers := vers (dk st); clock := clock (dk st); nowrite := nowrite (dk st); ferr := b |}.
+Definition ferr_of (st : cstate) : bool := ferr (dk st).
+Definition with_nowrite st (l : list N) :=
+  with_dk st {| vers := vers (dk st); clock := clock (dk st); nowrite := l; ferr := ferr (dk st) |}.
+Definition with_vers st (v : list (N * N)) :=
+  with_dk st {| vers := v; clock := clock (dk st); nowrite := nowrite (dk st); ferr := ferr (dk st) |}.
+
+(* the file is (re)written: new contents, new version *)
+Definition write_file st (f : N) (m : json) :=
+  with_dk (with_files st (nset f m (files st)))
+    {| vers := nset f (clock (dk st)) (vers (dk st)); clock := N.succ (clock (dk st));
+       nowrite := nowrite (dk st); ferr := ferr (dk st) |}.
+
+Definition ometa_eqb (a b : option N) : bool :=
+  match a, b with Some x, Some y => N.eqb x y | None, None => true | _, _ => false end.
 
 Definition set_mem st (h f : N) (m : json) := with_mems st (nset h (f, m) (mems st)).
 
@@ -349,18 +377,22 @@ Section Buffered.
         | Some e =>
             let st1 :=
               if json_eqb m (b_hash e) then st
+              else if negb (ometa_eqb (b_meta e) (nlookup f (vers (dk st)))) then
+                with_ferr st true                       (* MetadataError: the file changed on disk since it was buffered *)
               else let m' := mg m (b_contents e) in
-                   with_files (set_mem st h f m') (nset f m' (files st)) in
+                   if nmem f (nowrite (dk st)) then with_ferr (set_mem st h f m') true   (* _update, then ENOENT in _save_to_resource *)
+                   else write_file (set_mem st h f m') f m' in
             with_buf st1 (nremove f (buf st1))
         end
     end.
 
   (* _flush_buffer: popitem() takes the most recently registered collection first *)
   Definition flush_all (st : cstate) : cstate :=
-    with_reg (fold_left flush_one (rev (reg st)) st) [].
+    with_reg (fold_left flush_one (rev (reg st)) (with_ferr st false)) [].
 
+  (* afterwards [ferr_of] tells whether this check raised BufferedError *)
   Definition check_capacity (st : cstate) : cstate :=
-    if (cap st <? bsize st)%N then flush_all st else st.
+    if (cap st <? bsize st)%N then flush_all st else with_ferr st false.
 
   Definition load_buffered (st : cstate) (h f : N) (m : json) : cstate * json :=
     let '(st1, m1) :=
@@ -368,11 +400,14 @@ Section Buffered.
       | Some _ => (st, m)
       | None =>
           let m1 := merge_opt m (nlookup f (files st)) in
-          (with_buf (set_mem st h f m1) (nset f {| b_contents := m1; b_hash := m1 |} (buf st)), m1)
+          (with_buf (set_mem st h f m1)
+             (nset f {| b_contents := m1; b_hash := m1; b_meta := nlookup f (vers (dk st)) |} (buf st)), m1)
       end in
     let st2 := register st1 h in
     let blob := match nlookup f (buf st2) with Some e => b_contents e | None => m1 end in
     let st3 := check_capacity st2 in
+    if ferr_of st3 then (st3, m1)           (* BufferedError out of _load_from_buffer: nothing more happens *)
+    else
     (* the flush may have changed this collection's data; then the decoded blob is merged in *)
     let m3 := match nlookup h (mems st3) with Some (_, x) => x | None => m1 end in
     let m4 := mg m3 blob in
@@ -382,10 +417,10 @@ Section Buffered.
     let st0 := register (set_mem st h f m) h in
     let st1 :=
       match nlookup f (buf st0) with
-      | Some e => with_buf st0 (nset f {| b_contents := m; b_hash := b_hash e |} (buf st0))
+      | Some e => with_buf st0 (nset f {| b_contents := m; b_hash := b_hash e; b_meta := b_meta e |} (buf st0))
       | None =>
           let disk := match nlookup f (files st0) with Some v => v | None => JNull end in
-          with_buf st0 (nset f {| b_contents := m; b_hash := disk |} (buf st0))
+          with_buf st0 (nset f {| b_contents := m; b_hash := disk; b_meta := nlookup f (vers (dk st0)) |} (buf st0))
       end in
     check_capacity st1.
 
@@ -397,7 +432,7 @@ Section Buffered.
 
   Definition save (st : cstate) (h f : N) (m : json) : cstate :=
     match depth st with
-    | O => with_files (set_mem st h f m) (nset f m (files st))
+    | O => write_file (set_mem st h f m) f m
     | S _ => save_buffered st h f m
     end.
 
@@ -407,6 +442,7 @@ Section Buffered.
     | [] => (st, m, None)
     | e :: p' =>
         let '(st1, m1) := load st h f m in
+        if ferr_of st1 then (st1, m1, Some EOther) else
         match get_at (pre ++ [e]) m1 with
         | Err x => (st1, m1, Some x)
         | Ok _ => walk st1 h f m1 (pre ++ [e]) p'
@@ -414,7 +450,10 @@ Section Buffered.
     end.
 
   (* one document operation through collection h: what SyncedDict/SyncedList methods do *)
-  Definition cop (st : cstate) (h : N) (p : path) (o : dop) : cstate * result json :=
+  Definition raised (st : cstate) (r : result json) : result json := if ferr_of st then Err EOther else r.
+
+  Definition cop (st00 : cstate) (h : N) (p : path) (o : dop) : cstate * result json :=
+    let st := with_ferr st00 false in
     match nlookup h (mems st) with
     | None => (st, Err EOther)
     | Some (f, m0) =>
@@ -422,17 +461,18 @@ Section Buffered.
         | (st0, _, Some e) => (st0, Err e)        (* raised by __getitem__ on the way: nothing is saved *)
         | (st0, m0', None) =>
             let '(st1, m1) := if op_loads o then load st0 h f m0' else (st0, m0') in
+            if ferr_of st1 then (st1, Err EOther) else
             match get_at p m1 with
             | Err e => (st1, Err e)
             | Ok t =>
                 if is_read o then (st1, Ok t)
                 else
                   match sync_apply o t with
-                  | Ok (t', r) => (save st1 h f (set_at p t' m1), Ok r)
+                  | Ok (t', r) => let st2 := save st1 h f (set_at p t' m1) in (st2, raised st2 (Ok r))
                   | Err e =>
                       (* inside `with self._load_and_save:` — __exit__ saves whatever is in memory *)
                       match o with
-                      | ODel _ | LSet _ _ | LDel _ => (save st1 h f m1, Err e)
+                      | ODel _ | LSet _ _ | LDel _ => let st2 := save st1 h f m1 in (st2, raised st2 (Err e))
                       | _ => (st1, Err e)
                       end
                   end
@@ -449,7 +489,7 @@ Section Buffered.
 
   Definition set_capacity (st : cstate) (c : N) : cstate :=
     let st1 := with_cap st c in
-    if (c <? bsize st1)%N then flush_all st1 else st1.
+    if (c <? bsize st1)%N then flush_all st1 else with_ferr st1 false.
 
   Definition cstep (st : cstate) (it : citem) : cstate * result json :=
     match it with
@@ -458,7 +498,7 @@ Section Buffered.
     | CEnter c =>
         let st1 := with_depth st (S (depth st)) in
         match c with
-        | Some n => (set_capacity (with_caps st1 (Some (cap st) :: caps st)) n, Ok JNull)
+        | Some n => let st2 := set_capacity (with_caps st1 (Some (cap st) :: caps st)) n in (st2, raised st2 (Ok JNull))
         | None => (with_caps st1 (None :: caps st), Ok JNull)
         end
     | CExit =>
@@ -466,14 +506,16 @@ Section Buffered.
         | O => (st, Ok JNull)
         | S d =>
             let st1 := with_depth st d in
-            let st2 := match d with O => flush_all st1 | S _ => st1 end in
+            let st2 := match d with O => flush_all st1 | S _ => with_ferr st1 false end in
+            if ferr_of st2 then (st2, Err EOther)      (* BufferedError out of __exit__: the capacity is not restored *)
+            else
             match caps st2 with
-            | Some c :: r => (set_capacity (with_caps st2 r) c, Ok JNull)
+            | Some c :: r => let st3 := set_capacity (with_caps st2 r) c in (st3, raised st3 (Ok JNull))
             | None :: r => (with_caps st2 r, Ok JNull)
             | [] => (st2, Ok JNull)
             end
         end
-    | CSetCap c => (set_capacity st c, Ok JNull)
+    | CSetCap c => let st2 := set_capacity st c in (st2, raised st2 (Ok JNull))
     end.
 
   Fixpoint crun (st : cstate) (prog : list citem) : cstate * list (result json) :=
@@ -511,13 +553,25 @@ Section Buffered.
   Definition del_dir (ds : list N) (f : N) : list N := filter (fun x => negb (N.eqb x f)) ds.
 
   (* Job.document / Project.document: create the collection on first use, after init() *)
+  (* the job directory disappears with everything in it / is (re)created *)
+  Definition core_rmfile (c : cstate) (f : N) : cstate :=
+    with_dk (with_files c (nremove f (files c)))
+      {| vers := nremove f (vers (dk c)); clock := clock (dk c); nowrite := f :: nowrite (dk c); ferr := ferr (dk c) |}.
+  Definition core_mkdir (c : cstate) (f : N) : cstate :=
+    with_nowrite c (filter (fun x => negb (N.eqb x f)) (nowrite (dk c))).
+  Definition move_key {A} (f f' : N) (l : list (N * A)) : list (N * A) :=
+    match nlookup f l with
+    | Some v => nset f' v (nremove f l)
+    | None => nremove f' (nremove f l)
+    end.
+
   Definition resolve_doc (js : jstate) (j : N) : option (jstate * N) :=
     match nlookup j (jobs js) with
     | None => None
     | Some (f, Some h) => Some (js, h)
     | Some (f, None) =>
         let h := nexth js in
-        Some ({| core := fst (cstep (core js) (CNew h f));
+        Some ({| core := core_mkdir (fst (cstep (core js) (CNew h f))) f;
                  dirs := add_dir (dirs js) f;
                  jobs := nset j (f, Some h) (jobs js);
                  nexth := N.succ h |}, h)
@@ -535,7 +589,7 @@ Section Buffered.
     | JInit j =>
         match nlookup j (jobs js) with
         | None => (js, Err EOther)
-        | Some (f, _) => ({| core := core js; dirs := add_dir (dirs js) f; jobs := jobs js; nexth := nexth js |}, Ok JNull)
+        | Some (f, _) => ({| core := core_mkdir (core js) f; dirs := add_dir (dirs js) f; jobs := jobs js; nexth := nexth js |}, Ok JNull)
         end
     | JRekey j f' =>
         match nlookup j (jobs js) with
@@ -547,12 +601,11 @@ Section Buffered.
               ({| core := core js; dirs := dirs js; jobs := nset j (f', None) (jobs js); nexth := nexth js |}, Ok JNull)
             else if nmem f' (dirs js) then (js, Err EDestinationExists)
             else
-              let fs := files (core js) in
-              let fs' := match nlookup f fs with
-                         | Some v => nset f' v (nremove f fs)
-                         | None => nremove f' (nremove f fs)
-                         end in
-              ({| core := with_files (core js) fs';
+              let c := core js in
+              let c' := with_dk (with_files c (move_key f f' (files c)))
+                          {| vers := move_key f f' (vers (dk c)); clock := clock (dk c);
+                             nowrite := f :: filter (fun x => negb (N.eqb x f')) (nowrite (dk c)); ferr := ferr (dk c) |} in
+              ({| core := c';
                   dirs := add_dir (del_dir (dirs js) f) f';
                   jobs := nset j (f', None) (jobs js); nexth := nexth js |}, Ok JNull)
         end
@@ -562,9 +615,20 @@ Section Buffered.
         | Some (f, d) =>
             if negb (nmem f (dirs js)) then (js, Ok JNull)
             else
-              ({| core := with_files (core js) (nremove f (files (core js)));
-                  dirs := del_dir (dirs js) f;
-                  jobs := nset j (f, None) (jobs js); nexth := nexth js |}, Ok JNull)
+              let c1 := core_rmfile (core js) f in
+              match depth c1, d with
+              | S _, Some h =>
+                  (* inside a block self._document.clear() goes to the buffer; a forced flush may raise
+                     BufferedError out of remove(), in which case the handle is not dropped *)
+                  let '(c2, r) := cstep c1 (COp h [] OClear) in
+                  match r with
+                  | Ok _ => ({| core := c2; dirs := del_dir (dirs js) f; jobs := nset j (f, None) (jobs js); nexth := nexth js |}, Ok JNull)
+                  | Err e => ({| core := c2; dirs := del_dir (dirs js) f; jobs := jobs js; nexth := nexth js |}, Err e)
+                  end
+              | _, _ =>
+                  (* outside blocks clear() fails with ENOENT, which remove() ignores *)
+                  ({| core := c1; dirs := del_dir (dirs js) f; jobs := nset j (f, None) (jobs js); nexth := nexth js |}, Ok JNull)
+              end
         end
     | JEnter c => let '(c', r) := cstep (core js) (CEnter c) in (with_core js c', r)
     | JExit => let '(c', r) := cstep (core js) CExit in (with_core js c', r)
